@@ -36,16 +36,16 @@ def design_and_table(chk, sc, module, cfg, driver, label=None, workers=4, table_
     return tabs[0]
 
 
-def key_trace(chk, sc, module, driver, idx, args, keyfn=None, timeout=1200):
-    tr = os.path.join(sc.dir, "%s_%d.ndjson" % (module, idx))
-    g = run_py(sc, ["-m", driver, "trace"] + [str(a) for a in args] + [tr], timeout=timeout)
+def key_trace(chk, sc, module, driver, idx, args, keyfn=None, timeout=1200, mode="trace"):
+    tr = os.path.join(sc.dir, "%s_%s.ndjson" % (module, idx))
+    g = run_py(sc, ["-m", driver, mode] + [str(a) for a in args] + [tr], timeout=timeout)
     if g.returncode != 0 and _is_machinery(g.stderr):
         chk.machinery("driver %s failed to start: %s" % (driver, g.stderr[-800:]))
         return
     if g.returncode != 0:
         chk.violation("trace:exception", "real code raised during boundary evaluation (%s)" % driver, g.stderr[-3000:])
         return
-    rv = chk.add_tlc("%s#%d" % (module, idx), tlc.run(module, module + ".cfg", sc.sub("t_%s_%d" % (module, idx)), workers=1,
+    rv = chk.add_tlc("%s#%s" % (module, idx), tlc.run(module, module + ".cfg", sc.sub("t_%s_%s" % (module, idx)), workers=1,
                                                        env={"TRACE_FILE": tr}, timeout=timeout))
     verdicts = [plain(v) for v in extract_printed(rv.out, "VERDICT")]
     if not verdicts:
